@@ -39,7 +39,7 @@ chk = Check('C20', 'exploration',
             '{ndarray, nested list} x shifts {1e-2, 5e-3, 2.5e-3, default}; options: 6 integratorfxn x 5 gradientfxn x '
             '5 gradientkwargs spellings (defaults included), each path created and stepped; relax: surfaces (a,H,k,c) in '
             '2x2x2x3 (+1 seed surface) x 3 initial strings (straight, bent up, bent down) x {7,11,15} images x '
-            '{default, half default} time step x 2 integrators -- thorough: the full product; quick: for every '
+            '{default, half default} time step x 2 integrators, plus relax-scaled: 2 surfaces at length scales 3e-5 and 2e3 (E = L^2 V(p/L), shift 1e-3 L) x strings x 2 integrators -- thorough: the full product; quick: for every '
             '(surface, integrator) three (string, images, time step) triples arranged so that every parameter value and '
             'every (string, images) pair occurs with both integrators.  evaluations = individual oracle comparisons; '
             'non-trivial = integrator cases whose leading error term is non-zero, gradient cases with a non-zero third '
@@ -660,6 +660,51 @@ def relax(case):
 # --------------------------------------------------------------------------------------------
 # create_path options
 
+
+# --------------------------------------------------------------------------------------------
+# the same surfaces at another length scale: E(p) = L^2 V(p / L).  The gradient flow in u = p/L is then exactly that
+# of V, so time steps and the convergence measure per unit length carry over; only the finite-difference step of the
+# numerical gradient has to suit the scale (gradientkwargs={'shift': 1e-3 L}).  Relaxation with climbing must still put
+# the ends into (+-a L, 0) and the highest image onto the saddle with the barrier L^2 H.
+
+SCALES = [3e-5, 2e3]
+SCALED_SURFACES = [1, 16]
+
+
+@chk.clause('relax-scaled')
+def relax_scaled(case):
+    S = Surface(*SURFACES[SCALED_SURFACES[case['surf']]])
+    L = SCALES[case['scale']]
+    n = 11
+    start = initial_string(STRINGS[case['string']], S.a, n) * L
+    integ = {'rk': 'rungekutta', 'euler': 'euler'}[RELAX_INTEGRATORS[case['integ']]]
+
+    def E(p):
+        return L * L * S.V(np.asarray(p, float) / L)
+    fails = []
+    try:
+        path = mep.create_path(start, E, gradientkwargs={'shift': 1e-3 * L}, integratorfxn=integ)
+        tol = max(float(n) ** -4, 1e-10) * L
+        final, _ = quiet(path.relax, relaxsteps=STEPCAP, climbsteps=STEPCAP, tolerance=tol)
+    except Exception as e:
+        return [Fail(key='scaled-exception:%s' % type(e).__name__, msg='relaxation on the surface scaled by L=%g raised %s: %s' % (L, type(e).__name__, e))]
+    chk.note('relax-comparisons', 4)
+    c = np.asarray(final.coord) / L
+    lam = min(abs(x) for x in S.eig2(S.a) + S.eig2(-S.a) + S.eig2(0.0))
+    dtol = 3 * max(float(n) ** -4, 1e-10) / lam + 1e-3          # position tolerance in units of L (+ finite-difference bias)
+    for end, m in ((0, S.minima[0]), (-1, S.minima[1])):
+        if np.linalg.norm(c[end] - m) > dtol:
+            fails.append(Fail(key='scaled-end-not-in-minimum', msg='L=%g %s %s: end image %d at %s L, minimum %s L (distance %.3g L)'
+                              % (L, integ, STRINGS[case['string']], end, c[end].tolist(), m.tolist(), np.linalg.norm(c[end] - m))))
+    en = np.asarray(final.energy()) / (L * L)
+    top = int(np.argmax(en))
+    if np.linalg.norm(c[top] - S.saddle) > dtol:
+        fails.append(Fail(key='scaled-highest-image-not-at-saddle', msg='L=%g %s %s: highest image %d at %s L, saddle %s L'
+                          % (L, integ, STRINGS[case['string']], top, c[top].tolist(), S.saddle.tolist())))
+    elif abs(en[top] - S.H) > 1e-4 * S.H:
+        fails.append(Fail(key='scaled-barrier', msg='L=%g: energy of the highest image %.8g L^2, barrier %.8g L^2' % (L, en[top], S.H)))
+    return fails
+
 DEFAULT = '<default>'
 
 
@@ -828,6 +873,8 @@ def gen():
             yield 'order', dict(c)
     for fn, pt, sh, fo, sf in itertools.product(range(len(FUNCS)), range(len(POINTS)), range(len(SHAPES)), range(len(GFORMS)), range(len(SHIFTS))):
         yield 'gradient', {'fn': fn, 'point': pt, 'shape': sh, 'form': fo, 'shift': sf}
+    for su, sc, st, ii in itertools.product(range(len(SCALED_SURFACES)), range(len(SCALES)), range(len(STRINGS) if THOROUGH else 1), range(len(RELAX_INTEGRATORS))):
+        yield 'relax-scaled', {'surf': su, 'scale': sc, 'string': (st + 1) % len(STRINGS), 'integ': ii}
     for su, ii, gi, ki in itertools.product(range(len(OPT_SURFACES)), range(len(INTEG_OPTS)), range(len(GRAD_OPTS)), range(len(KW_OPTS))):
         yield 'options', {'surf': su, 'integ': ii, 'grad': gi, 'kw': ki}
 
